@@ -845,11 +845,12 @@ impl<'a> Checker<'a> {
 				OpKind::Write(b) => {
 					if ns == CHANNEL_MONITOR_PERSISTENCE_PRIMARY_NAMESPACE {
 						let (_, id, snap, _) = self.persist_of(op.call).ok_or_else(|| self.fail("foreign-write", format!("log[{}]: monitor written outside a persist call", i)))?;
-						// documented layout: sentinel prefix iff updates may be pending on top of it
-						let mut want = if run.mpu != 0 { MONITOR_UPDATING_PERSISTER_PREPEND_SENTINEL.to_vec() } else { vec![] };
-						want.extend_from_slice(snap);
-						if op.key != self.mon_k3 || **b != want {
-							return Err(self.fail("stored-monitor-differs", format!("log[{}]: write to {:?} ({} bytes) is not the monitor handed to persist call #{} (id {}, {} bytes + sentinel rule)", i, op.key, b.len(), op.call, id, snap.len())));
+						// what reached the store is the monitor handed over in that call, whole (optionally
+						// behind the documented sentinel prefix)
+						let sent = MONITOR_UPDATING_PERSISTER_PREPEND_SENTINEL;
+						let body: &[u8] = if b.starts_with(sent) && b.len() == snap.len() + sent.len() { &b[sent.len()..] } else { &b[..] };
+						if op.key != self.mon_k3 || body != &snap[..] {
+							return Err(self.fail("stored-monitor-differs", format!("log[{}]: write to {:?} ({} bytes) is not the monitor handed to persist call #{} (id {}, {} bytes)", i, op.key, b.len(), op.call, id, snap.len())));
 						}
 						full_id = Some(id);
 					} else if ns == CHANNEL_MONITOR_UPDATE_PERSISTENCE_PRIMARY_NAMESPACE {
@@ -1080,9 +1081,7 @@ fn compute_step_ok(script: &[SOp], off: &Offline) -> BTreeSet<u64> {
 // ---------------------------------------------------------------------------------------------
 
 pub fn oracle(c: &BCase, ctx: &mut Ctx, thorough: bool) -> CaseResult {
-	let t0 = std::time::Instant::now(); // DEVTIMING
 	let hist = catch_unwind(AssertUnwindSafe(|| run_history(c)));
-	let t_hist = t0.elapsed(); // DEVTIMING
 	let (run0, run1, hs) = match hist {
 		Ok(x) => x,
 		Err(_) => {
@@ -1150,7 +1149,6 @@ pub fn oracle(c: &BCase, ctx: &mut Ctx, thorough: bool) -> CaseResult {
 		}
 	}
 
-	if std::env::var("C19_DEV_TIMING").is_ok() { vcore::report(&format!("DEV hist={:?} total={:?} calls={} recov={} faults={}", t_hist, t0.elapsed(), n_calls, stats.recoveries, stats.fault_runs)); } // DEVTIMING
 	ctx.sub_evaluations(stats.recoveries);
 	// rule: some crash prefix ends right after an update write (updates pending on top of the stored
 	// monitor) and some prefix ends inside a clean-up with at least one lazy removal undecided
